@@ -6,7 +6,7 @@ import struct
 from typing import Any, Dict, Iterator, List, Optional, Tuple
 
 from .. import wire
-from ..explore import Stats, Violation, digest, pmap_iter
+from ..explore import Stats, Violation, digest, guarded_problem, pmap_iter
 from ..models.responder_model import Svc
 from ..scen import Decoded, RandPolicy, make_info, register
 from ..world import HarnessError, World, set_debug_logging
@@ -432,29 +432,29 @@ def run(tier: str, seed: int) -> Tuple[Stats, str, List[str], Dict[str, Any]]:
                 return
             stats.violations.append(Violation(f"C15 {replay.get('what')}: {problem}", replay, {"check": sig}))
 
-    for item, (problem, oc) in zip(singles, pmap_iter(run_one, singles, chunk=64)):
+    for item, (problem, oc) in zip(singles, pmap_iter(guarded_problem(run_one), singles, chunk=64)):
         record(problem, oc, {"mode": "single", "kind": item[0], "data": item[1], "source": item[2],
                              "what": f"{item[0]} datagram {item[1][:40].hex()}... ({len(item[1])} B) from {SOURCES[item[2]]}"})
     # streams: the whole corpus in order, 50 per world, two variants of sources/gaps/jitter
     chunks = [corp[i:i + 50] for i in range(0, len(corp), 50)]
     streams = [(c, v) for v in ((0, 1) if tier == "quick" else (0, 1, 2, 3)) for c in chunks]
-    for (c, v), (problem, oc) in zip(streams, pmap_iter(run_stream, streams, chunk=4)):
+    for (c, v), (problem, oc) in zip(streams, pmap_iter(guarded_problem(run_stream), streams, chunk=4)):
         record(problem, oc, {"mode": "stream", "variant": v, "chunk": [d for _, d in c], "n": len(c),
                              "what": f"stream of {len(c)} datagrams starting with {c[0][0]} (variant {v})"})
     sizes["streams"] = len(streams)
     cancels = [(di, t, o, g) for di in range(len(CANCEL_DATA)) for t in ("lookup", "registration")
                for o in ("cancel-first", "deliver-first") for g in (0, 1, 2)]
-    for item, (problem, oc) in zip(cancels, pmap_iter(run_cancel, cancels, chunk=4)):
+    for item, (problem, oc) in zip(cancels, pmap_iter(guarded_problem(run_cancel), cancels, chunk=4)):
         record(problem, oc, {"mode": "cancel", "item": list(item),
                              "what": f"{item[1]} waiter cancelled ({item[2]}, {item[3]} iterations apart) around valid datagram #{item[0]}"})
     sizes["cancels"] = len(cancels)
     tr = [(ti, si, gap) for ti in range(len(trains())) for si in range(len(SOURCES)) for gap in (0, 50, 450)]
-    for item, (problem, oc) in zip(tr, pmap_iter(run_train, tr, chunk=8)):
+    for item, (problem, oc) in zip(tr, pmap_iter(guarded_problem(run_train), tr, chunk=8)):
         record(problem, oc, {"mode": "train", "item": list(item),
                              "what": f"truncated-query train #{item[0]} from {SOURCES[item[1]]}, {item[2]} ms apart"})
     sizes["trains"] = len(tr)
     vs = valid_schedules()
-    for item, (problem, oc) in zip(vs, pmap_iter(run_valid, vs, chunk=16)):
+    for item, (problem, oc) in zip(vs, pmap_iter(guarded_problem(run_valid), vs, chunk=16)):
         record(problem, oc, {"mode": "valid", "item": [list(item[0]), item[1], list(item[2])], "n": 6,
                              "what": f"five well-formed queries {item[0]} ms apart, last {item[1]}, jitter draws {item[2]}"})
     sizes["valid_schedules"] = len(vs)
@@ -464,7 +464,7 @@ def run(tier: str, seed: int) -> Tuple[Stats, str, List[str], Dict[str, Any]]:
         oc = D.check_datagram(d, count_calls=False)[1]
         reps.setdefault(f"{kind}/{oc}", d)
     pairs = [([("a", a), ("b", b)], 0) for a, b in itertools.permutations(list(reps.values()), 2)]
-    for (c, v), (problem, oc) in zip(pairs, pmap_iter(run_stream, pairs, chunk=16)):
+    for (c, v), (problem, oc) in zip(pairs, pmap_iter(guarded_problem(run_stream), pairs, chunk=16)):
         record(problem, "pair:" + oc.split(":")[1], {"mode": "stream", "variant": 0, "chunk": [d for _, d in c], "n": 2,
                                                      "what": "ordered pair of class representatives"})
     sizes["pairs"] = len(pairs)
